@@ -71,6 +71,14 @@ def run(rep):
         sv = m.raw(['xv %s %s' % (xsd_of[c], ','.join(str(ord(ch)) for ch in eval(v))) for i, c, v in strs if c in xsd_of])
     finally:
         m.close()
+    # a verdict is a function of the value: the same constructor call repeated right away must be judged the same
+    n_again = 0
+    for (c, v), a in zip(pairs, impl):
+        if len(a) > 4 and a[4] != a[0]:
+            n_again += 1
+            if n_again <= 4:
+                rep.violation('%s(%s): %s the first time, %s when the same call is repeated' % (c, v, a[0], a[4]), {'class': c, 'value': v, 'first': a[0], 'second': a[4]})
+    rep.coverage['verdicts_repeated'] = len(impl)
     ndiff = 0
     invalid_acc = {i for (i, c, v), ok in zip(acc, xv) if ok != '1'}
     for i, ((c, v), a, b) in enumerate(zip(pairs, impl, mo)):
